@@ -206,7 +206,12 @@ def explore(cfg, judge, mode="pruned", max_dev=2, max_execs=200000, max_wall=360
                             st.exhausted, st.cap = False, "max_wall=%ds" % max_wall
                             cv.notify_all()
                             return
-                        prefix, devs = stack.pop()
+                        if mode == "dev":
+                            # fewest deviations first: a capped run has then covered every schedule up to some deviation count
+                            k = min(range(len(stack)), key=lambda i: stack[i][1])
+                            prefix, devs = stack.pop(k)
+                        else:
+                            prefix, devs = stack.pop()
                         inflight[0] += 1
                         break
                     if inflight[0] == 0:
